@@ -70,6 +70,11 @@ theorem line_col_positive (input : Bytes) (off : Nat) :
     any function body assigns to (the only one is the sentinel error `ErrNoMessage`). -/
 theorem sml_has_no_written_package_state : ∀ v ∈ Gen.sml_packageVars, v.2 = false := by decide
 
+/-- …and the only package-level variable at all is that immutable sentinel: no pool, cache or scratch
+    buffer exists at package level that distinct parser / encoder instances could share without ever
+    assigning to it (a `sync.Pool` is mutated through its methods, not by assignment). -/
+theorem sml_package_variables_exact : Gen.sml_packageVars = [("ErrNoMessage", false)] := by decide
+
 /-- **Per-instance state.** The result of a parse is a function of (oracle, mode, input) alone:
     `initInput` resets the whole scan window, so nothing survives from an earlier parse on the same
     `Parser`, and two instances cannot influence each other. -/
